@@ -23,6 +23,8 @@
       peers  = _ | <hex>,…            names attached with AddClient before the first item, in order
       items  = _ | item item …         (separated by one space)
         A<name>          AddClient(name)                          -> a
+        N<name>@<env>    as E, but the envelope's ProxyNext, when empty, is a NON-NIL slice (handed over
+                         by reference)
         E<name>@<env>    the connection attached/dialled under <name> reads <env> and the serve
                          loop runs forwardRpc on it               -> ignore | refused | panic |
                                                                      [dial:<dst>+]enq:<dst>:<id> |
@@ -157,6 +159,24 @@ def pxItem (cfg : Proxy.Cfg) (ic : Header → Option Header) (s : Proxy.State) (
         | some s1 =>
           let icv := match e.header with | some h => ic h | none => none
           match Proxy.step cfg s1 (.cmdRpc i icv false) with
+          | none => some (s, "noserve")
+          | some s2 =>
+            match s2.log.getLast? with
+            | some ev => some (s2, pxShowEv ev)
+            | none => some (s2, "nolog")
+    | _ => none
+  | some 'N' =>
+    match arg.splitOn "@" with
+    | [n, e] => do
+      let n ← parseHex n; let e ← pxParseEnv e
+      match Proxy.nget s.names n with
+      | none => some (s, "nosender")
+      | some i =>
+        match Proxy.step cfg s (.readerGet i e) with
+        | none => some (s, "notreading")
+        | some s1 =>
+          let icv := match e.header with | some h => ic h | none => none
+          match Proxy.step cfg s1 (.cmdRpc i icv true) with
           | none => some (s, "noserve")
           | some s2 =>
             match s2.log.getLast? with
